@@ -24,6 +24,7 @@ PmObsInit(c) ==
     reloadDue |-> 0,                             \* tick in which a pending reload-all must be handled (0 = none)
     reloadNext |-> FALSE,                        \* a reload-all arrived after the drain: due next tick
     shutDue |-> 0, shutNext |-> FALSE,
+    shutClean |-> FALSE,                         \* when the stop request arrived nothing else was waiting to be handled before it
     found |-> <<>>,                              \* ticks of found_dead events (unexpected exits noticed)
     kills |-> <<>>, killing |-> FALSE,
     ret |-> 2 ]                                  \* 2 = still running, 0 = success, -1 = failure, 3 = crashed
@@ -40,7 +41,11 @@ PmFold(c, o, ev) ==
          IF ev.s = "sleep" THEN [o EXCEPT !.reloadDue = o.tick] ELSE [o EXCEPT !.reloadNext = TRUE]
     [] ev.e = "sigint" ->
          IF o.shutDue # 0 \/ o.shutNext THEN o
-         ELSE IF ev.s = "sleep" THEN [o EXCEPT !.shutDue = o.tick] ELSE [o EXCEPT !.shutNext = TRUE]
+         ELSE LET ht == HandleTick(o, ev.s)
+                  waiting == (o.reloadDue = ht) \/ (ev.s = "drained" /\ o.reloadNext)
+                             \/ (\E i \in DOMAIN o.found : o.found[i] = ht - 1)
+              IN IF ev.s = "sleep" THEN [o EXCEPT !.shutDue = o.tick, !.shutClean = ~waiting]
+                 ELSE [o EXCEPT !.shutNext = TRUE, !.shutClean = ~waiting]
     [] ev.e = "start" ->
          IF ev.slot \in Slots(c)
          THEN [o EXCEPT !.old = IF o.cur[ev.slot].pid # 0 THEN @ \cup {[pid |-> o.cur[ev.slot].pid, joined |-> o.cur[ev.slot].joined]} ELSE @,
@@ -96,6 +101,7 @@ PmCheck(c, op, o, ev) ==
         THEN {"C18_ShutdownSignals"} ELSE {})
   \cup (IF ev.e = "kill" /\ op.shutDue = 0 THEN {"C18_SpuriousShutdown"} ELSE {})
   \cup (IF ev.e = "start" /\ op.killing THEN {"C18_StartAfterShutdown"} ELSE {})
+  \cup (IF ev.e = "start" /\ op.shutClean /\ op.shutDue # 0 /\ op.shutDue <= op.tick THEN {"C18_StartAfterShutdown"} ELSE {})
   \cup (IF ev.e = "ret" /\ ev.n = 0
         THEN (IF op.shutDue = 0 \/ op.shutDue > op.tick THEN {"C18_SpuriousExit"} ELSE {})
              \cup (IF ~(LivePids(c, op) \subseteq RangeS(op.kills)) THEN {"C18_ShutdownSignals"} ELSE {})
